@@ -183,6 +183,9 @@ def run_case(ctx, case):
         sp = G.gen_spec(rng, lengths=[64, 100, 128])
         if rng.random() < 0.12:
             sp = G.integer_grid(sp)
+        elif case['seed'] % 9 == 4:
+            sp = G.scaled_units(sp, [1e-7, 1e-9, 1e3][case['seed'] // 9 % 3])       # the same system in cm / m / small units of length
+            ctx.hook('other_length_units')
         r = R.grids(sp['L'], sp['dr'])[0]
         if any(core_set(sp, a, b, r)[0].any() for (_, _), (a, b) in G.pairs(sp['types'])):
             break
